@@ -284,13 +284,16 @@ func decimalValue(neg bool, digits string, exp10 int) float64 {
 		}
 		return 0
 	}
-	if exp10 > 400 {
+	// (shortcuts by the magnitude of the whole number, not of the exponent alone: the digit
+	// string may be thousands of digits long)
+	mag := exp10 + len(strings.TrimLeft(digits, "0"))
+	if mag > 400 {
 		if neg {
 			return math.Inf(-1)
 		}
 		return math.Inf(1)
 	}
-	if exp10 < -800 {
+	if mag < -400 {
 		if neg {
 			return math.Copysign(0, -1)
 		}
